@@ -636,6 +636,34 @@ fn stmt_case(w: &mut impl Write, rng: &mut Rng, kind: u64) {
         Ok((nerr, None)) => writeln!(w, "shape\tS\t{name}\t{text}\tNO-STATEMENT {nerr}\t{expected}").unwrap(),
         Err(p) => writeln!(w, "shape\tS\t{name}\t{text}\tPANIC {p}\t{expected}").unwrap(),
     }
+    // the same statement under another layout (blanks, line breaks, comments between all tokens): the accessors
+    // must return the same constituents (compared with all trivia squeezed out)
+    let squeeze = |s: &str| -> String {
+        let mut t = s.to_string();
+        for c in ["/* c */", "/* é */", "// c"] {
+            t = t.replace(c, "");
+        }
+        t.chars().filter(|c| !c.is_whitespace()).collect()
+    };
+    let text2 = relayout(&text, rng);
+    let flat2 = text2.replace('\n', "\\n");
+    let got2 = match first_stmt(&text2) {
+        Ok((nerr, Some(st))) => {
+            let g = match catch(std::panic::AssertUnwindSafe(|| read(st))) {
+                Ok(g) => g,
+                Err(p) => format!("PANIC {p}"),
+            };
+            if nerr > 0 { format!("SYNTAX-ERRORS{nerr}{g}") } else { g }
+        }
+        Ok((nerr, None)) => format!("NO-STATEMENT{nerr}"),
+        Err(p) => format!("PANIC {p}"),
+    };
+    // only where the canonical layout is right (otherwise the S line above already reports it)
+    let enc = squeeze(&expected);
+    let impl2 = squeeze(&got2);
+    if enc != "p" && !enc.is_empty() {
+        writeln!(w, "shape\tL\t{enc}\t{flat2}\t{}\tok", if impl2.is_empty() { "-".to_string() } else { impl2 }).unwrap();
+    }
 }
 
 /// the same tokens with other trivia (blanks, line breaks, comments) between every two of them
